@@ -97,6 +97,10 @@ def run(ctx):
                     if private or not viol:
                         ctx.ok('C14.2', f, e.call, 'relaxing call from %s method; index arguments bounded by real extents'
                                % ('private' if private else 'public'))
+    # C14.3: dimensionality refusals (same rule as C09.5)
+    from ..dimguard import DimGuard
+    DimGuard(P, G).check(ctx, 'C14.3')
+    ctx.floor('C14.3', 10, 'mode-specific public methods')
     ctx.floor('C14.1', 25, 'parameter obligations over the read API')
     ctx.floor('C14.2', 1, 'access_padding=True call sites')
     ctx.notes.append('sanitiser functions: %s' % sorted(B.san))
